@@ -189,7 +189,7 @@ def run_job(job):
                 elif kind in ("retx", "retdx", "retnx"):
                     cal = ch.set_code(None, returner_runtime(data))
                     fn = {"retx": "viaret_x", "retdx": "viaret_dx", "retnx": "viaret_nx"}[kind]
-                    args = A.py_enc(("tuple", (("address",), tt)), [int(cal, 16), xvs[k]], 0)
+                    args = int(cal, 16).to_bytes(32, "big") + xvs[k]      # xvs[k]: ABI arguments after the address word
                     r = ch.call(main, mids[fn] + args)
                 elif kind == "rawdec":
                     cal = ch.set_code(None, returner_runtime(data))
